@@ -841,6 +841,11 @@ class Project(MessageHandler):
                     return False
             elif hasattr(vac, "contains") and vac.contains(date):
                 return False
+        # Working hours declared in the project header replace the built-in default
+        declared = self.attributes.get("workinghours")
+        if declared is not None and hasattr(declared, "onShiftAt") and declared.hasCustomHours():
+            declared_result: bool = declared.onShiftAt(date)
+            return declared_result
         weekday: int = date.weekday()
         if weekday >= 5:  # Saturday or Sunday
             return False
